@@ -35,6 +35,13 @@ EXPLICIT2 = {
     ("geometry/series.go", 120, "nseries.buildIndex()", ""): "index-tuning", ("geometry/series.go", 240, "closed && points[0] == points[", "false"): "redundant",
     ("geometry/series.go", 241, "n--", ""): "redundant", ("geometry/series.go", 297, "concave", "false"): "early-stop",
     ("geometry/series.go", 311, "hasPrev", "true"): "redundant", ("geometry/series.go", 319, "series.index = nil", ""): "index-tuning",
+    # third sweep (segment.go after F26): > / >= where both branches agree on equal values; the collinear shortcut in front of the three
+    # Raycast tests, which are complete on their own; u is never 0 after the collinear branch; a zero rxs gives t = +-Inf, which fails the range test
+    ("geometry/segment.go", 29, ">", ">="): "redundant", ("geometry/segment.go", 32, ">", ">="): "redundant", ("geometry/segment.go", 57, ">", ">="): "redundant",
+    ("geometry/segment.go", 58, ">", ">="): "redundant", ("geometry/segment.go", 68, ">", ">="): "redundant", ("geometry/segment.go", 78, ">", ">="): "redundant",
+    ("geometry/segment.go", 79, ">", ">="): "redundant", ("geometry/segment.go", 89, ">", ">="): "redundant", ("geometry/segment.go", 110, "||", "&&"): "redundant",
+    ("geometry/segment.go", 128, ">=", ">"): "redundant", ("geometry/segment.go", 121, "eqZero(rxs)", "false"): "redundant",
+    ("geometry/segment.go", 110, "!(((c.X-a.X <= 0) != (c.X-b.X ", "true"): "redundant",
 }
 EXPLICIT = {
     # token mutants
@@ -121,8 +128,10 @@ def main():
     for name, title in (("", "Token mutants (relational, arithmetic, logical operators, constants, booleans, break/continue)"),
                         ("-ast", "Structural mutants (if-condition forced false / true, statement deleted, loop skipped)"),
                         ("-v2", "Second sweep, token mutants of the four files repaired during the day (raycast.go, series.go, geo.go, circle.go) at the final commit, final harness"),
-                        ("-v2-ast", "Second sweep, structural mutants of the same four files")):
-        USE_EXPLICIT = not name.startswith("-v2")
+                        ("-v2-ast", "Second sweep, structural mutants of the same four files"),
+                        ("-v3", "Third sweep, token mutants of geometry/segment.go after the repair F26 (final harness)"),
+                        ("-v3-ast", "Third sweep, structural mutants of geometry/segment.go")):
+        USE_EXPLICIT = name in ("", "-ast")
         filt = collections.Counter(json.loads(l)["status"] for l in open(os.path.join(ROOT, "filter%s.jsonl" % name)))
         muts = sum(filt.values())
         scores = {}
